@@ -70,6 +70,15 @@ def corpus(tier):
         blob = c14.pe_build(plus, 2, 16, 0)
         ref = c14.pe_read(blob)
         C.append(("synthetic-pe32%s" % ("+" if plus else ""), blob, [(0, 0x40, "DOS"), (ref["e_lfanew"], ref["e_lfanew"] + 24 + ref["NT"]["SizeOfOptionalHeader"] + 80, "NT+Opt+sections")], "PE"))
+    for plus in (False, True):
+        # an image with an import directory (named and ordinal imports from two DLLs)
+        # (in the third section, whose virtual size is smaller than its raw size: nothing is zero-filled behind it)
+        blob = c14.pe_build(plus, 3, 16, 1, 0, "mixed-2dll", 2)
+        ref = c14.pe_read(blob)
+        s1 = ref["secs"][2]
+        io = s1["PointerToRawData"] + 0x40
+        C.append(("synthetic-pe32%s-imports" % ("+" if plus else ""), blob,
+                  [(ref["e_lfanew"], ref["e_lfanew"] + 24 + ref["NT"]["SizeOfOptionalHeader"] + 80, "NT+Opt+sections"), (io, io + 0x100, "import-tables")], "PE"))
     for is64 in (False, True):
         blob, d = c14.macho_build(is64, 2, 0)
         C.append(("synthetic-macho%d" % (64 if is64 else 32), blob, [(0, (32 if is64 else 28) + d["sizeofcmds"], "header+cmds")], "MachO"))
